@@ -12,7 +12,12 @@
 #include "vf.hpp"
 #include <rapidcheck.h>
 
+extern "C" int __lsan_do_recoverable_leak_check() __attribute__((weak));
+
 namespace vf {
+
+// per-case leak detection (LeakSanitizer): non-zero if the case left unreachable heap blocks behind
+inline bool leaked_now() { return __lsan_do_recoverable_leak_check && __lsan_do_recoverable_leak_check() != 0; }
 
 struct RcChooser : Chooser {
   uint64_t raw(uint64_t lo, uint64_t hi) override {
@@ -44,6 +49,7 @@ struct Prop {
   int isolate = 0;          // default mode
   unsigned words = 1024;    // raw words per case in isolated mode
   unsigned timeout_s = 60;  // watchdog in isolated mode
+  bool leakcheck = false;   // run LeakSanitizer after every case: a leak is a failing case
 };
 
 namespace detail {
@@ -92,6 +98,7 @@ inline CaseResult run_isolated(const Prop& p, const std::vector<uint64_t>& words
     ReplayChooser ch(words);
     Stats local; local.max_samples = 1;
     CaseResult r = p.body(ch, &local);
+    if (p.leakcheck && r.fail.empty() && leaked_now()) r.fail = "memory obtained during this case was never released (LeakSanitizer)";
     local.cases = 1;
     return "\n" + detail::pack(r, local, std::min(ch.pos, words.size()));
   }, p.timeout_s);
@@ -125,7 +132,7 @@ inline int run_main(const Options& o, const std::string& prop_id, const std::vec
       int iso = (int)o.getl("isolate", p.isolate);
       CaseResult r;
       if (iso) { size_t c; r = run_isolated(p, rf.draws, nullptr, c); }
-      else { ReplayChooser ch(rf.draws); r = p.body(ch, nullptr); }
+      else { ReplayChooser ch(rf.draws); r = p.body(ch, nullptr); if (p.leakcheck && r.fail.empty() && leaked_now()) r.fail = "memory obtained during this case was never released (LeakSanitizer)"; }
       if (!r.fail.empty()) { printf("REPLAY-FAIL %s/%s: %s\n", prop_id.c_str(), p.name.c_str(), r.fail.c_str()); return 1; }
       printf("REPLAY-PASS %s/%s\n", prop_id.c_str(), p.name.c_str());
       return 0;
@@ -179,6 +186,7 @@ inline int run_main(const Options& o, const std::string& prop_id, const std::vec
           RcChooser ch;
           Stats* sp = failed_once ? nullptr : &st;
           CaseResult r = p.body(ch, sp);
+          if (p.leakcheck && r.fail.empty() && leaked_now()) r.fail = "memory obtained during this case was never released (LeakSanitizer)";
           on_result(r, ch.rec, sp);
         });
     rc::detail::TestResult result = rc::detail::checkProperty(property, md, tp);
